@@ -448,7 +448,12 @@ func c18HTTPOp(c *core.Ctx, e *hostile.Env, i int, op c18Op, user, pass string, 
 		c.Discard("http-request-stuck")
 		return nil
 	}
-	c.Log.Add("%d op %d http %s u%d/%s target=%s allowed=%v -> code=%d body=%d", s.StepN, i, op.Cmd, op.User, op.Pres, tgt.ID, allowed, code, len(respBody))
+	// the size of an authorised answer is not logged: status, expvar, pprof bodies contain pids, real times, memory statistics
+	bodyDesc := fmt.Sprint(len(respBody))
+	if allowed {
+		bodyDesc = fmt.Sprint(len(respBody) > 0)
+	}
+	c.Log.Add("%d op %d http %s u%d/%s target=%s allowed=%v -> code=%d body=%s", s.StepN, i, op.Cmd, op.User, op.Pres, tgt.ID, allowed, code, bodyDesc)
 	what := fmt.Sprintf("HTTP %s %s from user %q presented as %q", ep.Method, ep.Path, user, op.Pres)
 	if !allowed {
 		c.Probe("unauthorized_http")
